@@ -22,7 +22,8 @@ static int t2_sockfd(void) { return -1; }
 static HttpAsyncCtx hc; static CurlMulti multi;
 static struct KSI_AsyncClient_st parent; static struct KSI_AsyncHandle_list_st rq; static struct KSI_OctetString_list_st sq; static struct CurlAsyncRequest_list_st rc;
 static time_t t2_now0, t3_roundStartAt0; static size_t t3_roundCount0;
-#define T_LIM 0x10000000000LL
+#define T_LIM 0x80000000LL      /* |clock values| < 2^31 */
+#define OPT_LIM 0xffffffffULL   /* time-outs, round duration, requests per round < 2^32 */
 static time_t t2_nondet_time(void) { long long t = nondet_ll(); __CPROVER_assume(t > -T_LIM && t < T_LIM); return (time_t)t; }
 
 /* references to request handles */
@@ -80,7 +81,7 @@ static void t3_setup(size_t qmax) {
 	rq.length = t2_req_length; rq.elementAt = t2_req_elementAt; rq.removeElement = t2_req_remove; rq.append = t2_req_append;
 	sq.append = sq_append; sq.length = sq_length; sq.removeElement = sq_remove;
 	rc.length = rc_length; rc.append = rc_append; rc.removeElement = rc_remove;
-	for (i = 0; i < __NOF_KSI_ASYNC_OPT; i++) parent.options[i] = nondet_size();
+	for (i = 0; i < __NOF_KSI_ASYNC_OPT; i++) { parent.options[i] = nondet_size(); __CPROVER_assume(parent.options[i] <= OPT_LIM); }
 	multi.handle = (CURLM *)&t3_multi_obj; multi.initCount = 1;
 	hc.ctx = NULL; hc.curl = &multi; hc.reqQueue = &rq; hc.respQueue = &sq; hc.userAgent = nondet_bool() ? "ua" : NULL; hc.httpHeaders = NULL; hc.options = parent.options;
 	hc.ksi_user = NULL; hc.ksi_pass = NULL; hc.url = "u"; hc.reqRecycle = &rc;
